@@ -56,7 +56,7 @@ pub struct PairCase {
     pub spelling: Vec<u8>,
 }
 
-fn fields_of(t: &Tuple, typed: bool) -> Fields {
+pub fn fields_of(t: &Tuple, typed: bool) -> Fields {
     let e = t.expected(false);
     Fields {
         ty: t.ty.clone(),
@@ -88,7 +88,7 @@ fn field_mut(f: &mut Fields, i: u8) -> &mut String {
     }
 }
 
-fn mutate(f: &Fields, m: &Mutation) -> Fields {
+pub fn mutate(f: &Fields, m: &Mutation) -> Fields {
     let mut g = f.clone();
     match m {
         Mutation::Same => {},
@@ -371,7 +371,7 @@ fn o_pair(c: &PairCase, st: &mut Stats) -> Result<(), String> {
     Ok(())
 }
 
-fn gmutation() -> BoxedStrategy<Mutation> {
+pub fn gmutation() -> BoxedStrategy<Mutation> {
     prop_oneof![
         2 => Just(Mutation::Same),
         3 => (any::<u8>(), any::<u16>(), gchar()).prop_map(|(i, p, c)| Mutation::ChangeChar(i, p, c)),
